@@ -49,7 +49,11 @@ where
         if version.as_str() == FSM_READER_VERSION {
             fsm.name = self.reader.read_string();
             fsm.datamodel = self.reader.read_string();
-            fsm.binding = BindingType::from_ordinal(self.reader.read_u8());
+            let binding_ordinal = self.reader.read_u8();
+            if self.reader.has_error() {
+                return Err("Can't read".to_string());
+            }
+            fsm.binding = BindingType::from_ordinal(binding_ordinal);
             fsm.pseudo_root = self.read_state_id();
             fsm.script = self.read_executable_content_id();
 
@@ -75,6 +79,11 @@ where
                     content.push(self.read_executable_content());
                 }
                 fsm.executableContent.insert(content_id, content);
+            }
+
+            if self.reader.has_error() {
+                // Truncated or damaged stream: the values read after the error are defaults.
+                return Err("Can't read".to_string());
             }
 
             let end = SystemTime::now().duration_since(UNIX_EPOCH).unwrap();
